@@ -98,6 +98,115 @@ def install_stubs(it):
     ex['<String as ToSymbol>::to_symbol'] = ex['<std::string::String as ToSymbol>::to_symbol'] = to_symbol
 
 
+def install_dispatch(it):
+    # trait-qualified stubs are looked up through models.dispatch only for plain keys; route the two trait calls by hook
+    orig_dispatch = it.models.dispatch
+
+    def dispatch(it_, callee, args_, fr, _o=orig_dispatch):
+        if callee.startswith('<str as ToString>::to_string') or callee.startswith('<str as std::string::ToString>::to_string'):
+            it_.models.note('STUB str::to_string (identity on interned string)')
+            return args_[0]
+        if callee.endswith(' as ToSymbol>::to_symbol') or callee.endswith(' as interner::ToSymbol>::to_symbol'):
+            it_.models.note('STUB ToSymbol::to_symbol (inverse of Symbol::as_str)')
+            s = args_[0]
+            while type(s) is Ref:
+                s = s.cont[s.key]
+            if isinstance(s, SymStr):
+                return Agg('Symbol', None, [s.id])
+        return _o(it_, callee, args_, fr)
+    it.models.dispatch = dispatch
+
+
+class Builder(object):
+    """symbolic Value construction for a shape, and structural equality with solver-decided payloads"""
+
+    def __init__(self, it, rec):
+        self.it = it
+        self.rec = rec
+        self.e_val = it.layouts.find_enum('Value', 'Fixpoint')
+        self.tag_v = it.enum_tag(self.e_val)
+        self.ctr = 0
+
+    def reset(self):
+        self.ctr = 0
+
+    def fresh(self, name, w):
+        self.ctr += 1
+        return z3.BitVec('%s%d' % (name, self.ctr), w)
+
+    def build(self, s):
+        it, e_val, tag_v, fresh, build = self.it, self.e_val, self.tag_v, self.fresh, self.build
+        k = s[0]
+        vi = e_val.variant_index(k)
+        if k == 'Unit':
+            return Agg(tag_v, vi, [])
+        if k == 'Number':
+            return Agg(tag_v, vi, [Sc('f64', it.smt.fp_from_bits(fresh('num', 64)))])
+        if k == 'String':
+            return Agg(tag_v, vi, [Agg('Symbol', None, [Sc('u32', fresh('sym', 32))])])
+        if k in ('Code', 'ErrorV'):
+            return Agg(tag_v, vi, [Agg('ExprNodeId', None, [Sc('u64', fresh('expr', 64))])])
+        if k == 'Closure':
+            return Agg(tag_v, vi, [Opaque('ExprNodeId'), VecV([]), Opaque('Environment')])
+        if k == 'Fixpoint':
+            return Agg(tag_v, vi, [Agg('Symbol', None, [Sc('u32', fresh('sym', 32))]), Opaque('ExprNodeId')])
+        if k == 'ExternalFn':
+            return Agg(tag_v, vi, [Opaque('ExtFunction')])
+        if k == 'Store':
+            return Agg(tag_v, vi, [RcV(RefCellV(Agg(tag_v, e_val.variant_index('Unit'), [])))])
+        if k == 'ConstructorFn':
+            return Agg(tag_v, vi, [Sc('u64', fresh('tag', 64)), Agg('Symbol', None, [Sc('u32', fresh('sym', 32))]), Opaque('TypeNodeId')])
+        if k in ('Array', 'Tuple'):
+            return Agg(tag_v, vi, [VecV([build(c) for c in s[1]])])
+        if k == 'Record':
+            return Agg(tag_v, vi, [VecV([Agg('tuple', None, [Agg('Symbol', None, [Sc('u32', fresh('key', 32))]), build(c)]) for c in s[1]])])
+        if k == 'TaggedUnion':
+            return Agg(tag_v, vi, [Sc('u64', fresh('tag', 64)), BoxV(build(s[1][0]))])
+        raise ValueError(k)
+
+    def equal(self, a, b, where):
+        """structural equality with solver-decided payloads"""
+        it, rec, equal = self.it, self.rec, self.equal
+        ta, tb = type(a), type(b)
+        if ta is Sc and tb is Sc:
+            rec['checks'] += 1
+            c = progcheck.words_equal_cond(it.smt, a, b) if a.t in ('u64', 'f64') else None
+            if a.t == 'f64' or b.t == 'f64':
+                # payload must be BIT-identical (NaN payload, -0): compare the bit patterns
+                A, B = it.smt.fp_to_bits(a.v), it.smt.fp_to_bits(b.v)
+                c = (A == B) if not (isinstance(A, int) and isinstance(B, int)) else z3.BoolVal(A == B)
+            elif a.t != 'u64':
+                A, B = it.bv(a), it.bv(b)
+                c = A == B
+            elif c is None:
+                return
+            c = z3.simplify(c)
+            if z3.is_true(c):
+                return
+            if it.smt.check(z3.Not(c)) != z3.unsat:
+                e = FfiViolation('payload at %s differs after the round trip' % where)
+                e.model = it.smt.model()
+                raise e
+            return
+        if ta is Agg and tb is Agg:
+            if a.variant != b.variant or len(a.fields) != len(b.fields):
+                raise FfiViolation('constructor at %s changed: %s#%s -> %s#%s' % (where, a.ty, a.variant, b.ty, b.variant))
+            for i, (x, y) in enumerate(zip(a.fields, b.fields)):
+                equal(x, y, '%s.%d' % (where, i))
+            return
+        if ta is VecV and tb is VecV:
+            if len(a.buf) != len(b.buf):
+                raise FfiViolation('length at %s changed' % where)
+            for i, (x, y) in enumerate(zip(a.buf, b.buf)):
+                equal(x, y, '%s[%d]' % (where, i))
+            return
+        if ta is BoxV and tb is BoxV:
+            return equal(a.cell[0], b.cell[0], where + '.*')
+        if ta is Opaque and tb is Opaque:
+            return
+        raise FfiViolation('shape at %s changed (%s vs %s)' % (where, ta.__name__, tb.__name__))
+
+
 def run_shapes(args):
     mirs, shape_list, qto = args
     crate = progcheck.get_crate(mirs)
@@ -106,104 +215,14 @@ def run_shapes(args):
         smt = Smt(qto)
         it = Interp(crate, smt, Models())
         install_stubs(it)
-        # trait-qualified stubs are looked up through models.dispatch only for plain keys; route the two trait calls by hook
-        orig_dispatch = it.models.dispatch
-
-        def dispatch(it_, callee, args_, fr, _o=orig_dispatch):
-            if callee.startswith('<str as ToString>::to_string') or callee.startswith('<str as std::string::ToString>::to_string'):
-                it_.models.note('STUB str::to_string (identity on interned string)')
-                return args_[0]
-            if callee.endswith(' as ToSymbol>::to_symbol') or callee.endswith(' as interner::ToSymbol>::to_symbol'):
-                it_.models.note('STUB ToSymbol::to_symbol (inverse of Symbol::as_str)')
-                s = args_[0]
-                while type(s) is Ref:
-                    s = s.cont[s.key]
-                if isinstance(s, SymStr):
-                    return Agg('Symbol', None, [s.id])
-            return _o(it_, callee, args_, fr)
-        it.models.dispatch = dispatch
+        install_dispatch(it)
         ex = Explorer(smt, 50)
-        e_val = it.layouts.find_enum('Value', 'Fixpoint')
-        tag_v = it.enum_tag(e_val)
-        ctr = [0]
         rec = dict(shape=shape_str(sh), status='ok', msg=None, checks=0)
-
-        def fresh(name, w):
-            ctr[0] += 1
-            return z3.BitVec('%s%d' % (name, ctr[0]), w)
-
-        def build(s):
-            k = s[0]
-            vi = e_val.variant_index(k)
-            if k == 'Unit':
-                return Agg(tag_v, vi, [])
-            if k == 'Number':
-                return Agg(tag_v, vi, [Sc('f64', it.smt.fp_from_bits(fresh('num', 64)))])
-            if k == 'String':
-                return Agg(tag_v, vi, [Agg('Symbol', None, [Sc('u32', fresh('sym', 32))])])
-            if k in ('Code', 'ErrorV'):
-                return Agg(tag_v, vi, [Agg('ExprNodeId', None, [Sc('u64', fresh('expr', 64))])])
-            if k == 'Closure':
-                return Agg(tag_v, vi, [Opaque('ExprNodeId'), VecV([]), Opaque('Environment')])
-            if k == 'Fixpoint':
-                return Agg(tag_v, vi, [Agg('Symbol', None, [Sc('u32', fresh('sym', 32))]), Opaque('ExprNodeId')])
-            if k == 'ExternalFn':
-                return Agg(tag_v, vi, [Opaque('ExtFunction')])
-            if k == 'Store':
-                return Agg(tag_v, vi, [RcV(RefCellV(Agg(tag_v, e_val.variant_index('Unit'), [])))])
-            if k == 'ConstructorFn':
-                return Agg(tag_v, vi, [Sc('u64', fresh('tag', 64)), Agg('Symbol', None, [Sc('u32', fresh('sym', 32))]), Opaque('TypeNodeId')])
-            if k in ('Array', 'Tuple'):
-                return Agg(tag_v, vi, [VecV([build(c) for c in s[1]])])
-            if k == 'Record':
-                return Agg(tag_v, vi, [VecV([Agg('tuple', None, [Agg('Symbol', None, [Sc('u32', fresh('key', 32))]), build(c)]) for c in s[1]])])
-            if k == 'TaggedUnion':
-                return Agg(tag_v, vi, [Sc('u64', fresh('tag', 64)), BoxV(build(s[1][0]))])
-            raise ValueError(k)
-
-        def equal(a, b, where):
-            """structural equality with solver-decided payloads"""
-            ta, tb = type(a), type(b)
-            if ta is Sc and tb is Sc:
-                rec['checks'] += 1
-                c = progcheck.words_equal_cond(it.smt, a, b) if a.t in ('u64', 'f64') else None
-                if a.t == 'f64' or b.t == 'f64':
-                    # payload must be BIT-identical (NaN payload, -0): compare the bit patterns
-                    A, B = it.smt.fp_to_bits(a.v), it.smt.fp_to_bits(b.v)
-                    c = (A == B) if not (isinstance(A, int) and isinstance(B, int)) else z3.BoolVal(A == B)
-                elif a.t != 'u64':
-                    A, B = it.bv(a), it.bv(b)
-                    c = A == B
-                elif c is None:
-                    return
-                c = z3.simplify(c)
-                if z3.is_true(c):
-                    return
-                if it.smt.check(z3.Not(c)) != z3.unsat:
-                    e = FfiViolation('payload at %s differs after the round trip' % where)
-                    e.model = it.smt.model()
-                    raise e
-                return
-            if ta is Agg and tb is Agg:
-                if a.variant != b.variant or len(a.fields) != len(b.fields):
-                    raise FfiViolation('constructor at %s changed: %s#%s -> %s#%s' % (where, a.ty, a.variant, b.ty, b.variant))
-                for i, (x, y) in enumerate(zip(a.fields, b.fields)):
-                    equal(x, y, '%s.%d' % (where, i))
-                return
-            if ta is VecV and tb is VecV:
-                if len(a.buf) != len(b.buf):
-                    raise FfiViolation('length at %s changed' % where)
-                for i, (x, y) in enumerate(zip(a.buf, b.buf)):
-                    equal(x, y, '%s[%d]' % (where, i))
-                return
-            if ta is BoxV and tb is BoxV:
-                return equal(a.cell[0], b.cell[0], where + '.*')
-            if ta is Opaque and tb is Opaque:
-                return
-            raise FfiViolation('shape at %s changed (%s vs %s)' % (where, ta.__name__, tb.__name__))
+        builder = Builder(it, rec)
+        build, equal = builder.build, builder.equal
 
         def path(it):
-            ctr[0] = 0
+            builder.reset()
             v = build(sh)
             from mirsym.values import clone_val
             orig = clone_val(v)
@@ -322,6 +341,29 @@ def run(tier, seed):
     import multiprocessing as mp
     with mp.get_context('fork').Pool(16) as pool:
         res = pool.map(run_shapes, [(mirs, c, 5000) for c in chunks if c])
+    # second layer: the dynamic-plugin macro bridge (DynPluginMacroInfo::get_fn closure + the generated plugin-side entry),
+    # one closure invoked k = 3 times with independent symbolic arguments
+    from checks import c20_bridge
+    N, S, U = ('Number',), ('String',), ('Unit',)
+    fixed = [
+        [[N], [S], [N]],
+        [[S], [S], [S]],
+        [[S, N], [S], []],
+        [[], [N], [N, N]],
+        [[('Tuple', [N, S])], [('Array', [N])], [('Record', [S, N])]],
+        [[N, S], [('Closure',)], [N]],
+        [[('TaggedUnion', [N])], [('Code',)], [U]],
+        [[('Array', [])], [('Tuple', [])], [('Record', [])]],
+    ]
+    pool_shapes = [x for x in shapes(1, 2) if not has_errorv(x)]
+    brng = random.Random(1000 + seed)
+    for _ in range(8 if quick else 64):
+        fixed.append([[brng.choice(pool_shapes) for _ in range(brng.randint(0, 2))] for _ in range(3)])
+    bchunks = [fixed[i::16] for i in range(16)]
+    with mp.get_context('fork').Pool(16) as pool:
+        bres = pool.map(c20_bridge.run_bridge, [(mirs, c, 5000) for c in bchunks if c])
+    res = list(res) + list(bres)
+    n_bridge = sum(len(c) for c in bres)
     nshapes = nchecks = npaths = 0
     for chunk in res:
         for r in chunk:
@@ -338,16 +380,21 @@ def run(tier, seed):
             elif r['status'] in ('violation', 'panic'):
                 key = 'ErrorV-becomes-Unit' if 'ErrorV' in r['shape'] and 'constructor' in (r['msg'] or '') else '%s:%s' % (r['status'], r['shape'])
                 rep.replays += 1
-                confirmed, real = real_roundtrip_confirms(r) if r.get('tree') is not None else (False, dict(note='no shape tree'))
+                if r.get('scenario') is not None:
+                    confirmed, real = c20_bridge.real_bridge_confirms(r)
+                    key = 'bridge:%s' % r['shape'][8:]
+                else:
+                    confirmed, real = real_roundtrip_confirms(r) if r.get('tree') is not None else (False, dict(note='no shape tree'))
                 if confirmed:
                     rep.finding(key, dict(shape=r['shape'], msg=r['msg'], where=r.get('where'), replay=real))
                 else:
                     rep.inconclusive.append('%s: "%s" is not what the real crate does with this value (%s)' % (r['shape'], (r['msg'] or '')[:80], json.dumps(real)[:160]))
             if len(rep.samples) < 8 and r['checks'] > 1:
                 rep.samples.append(dict(shape=r['shape'], payload_equalities=r['checks'], status=r['status']))
-    cov = dict(states=max(1, npaths), transitions=max(1, rep.stats['queries'] + nchecks), traces_validated_against_impl=rep.replays, value_shapes=nshapes, payload_equalities=nchecks,
-               bounds='all value shapes of depth <= 1 / width <= 2, all shapes of depth <= 3 / width <= 1, plus %d seeded shapes of depth 2 / width <= 2 over the 14 Value constructors; Number payloads, tags, string / key / code ids symbolic' % (len(sel) - len(base)))
+    cov = dict(states=max(1, npaths), transitions=max(1, rep.stats['queries'] + nchecks), traces_validated_against_impl=rep.replays, value_shapes=nshapes - n_bridge, bridge_scenarios=n_bridge, payload_equalities=nchecks,
+               bounds='all value shapes of depth <= 1 / width <= 2, all shapes of depth <= 3 / width <= 1, plus %d seeded shapes of depth 2 / width <= 2 over the 14 Value constructors; Number payloads, tags, string / key / code ids symbolic; macro bridge: %d scenarios of 3 consecutive invocations of one get_fn closure with 0..2 arguments each (shapes of depth <= 1)' % (len(sel) - len(base), n_bridge))
     assumptions = ['the string interner is stubbed as a bijection: Symbol::as_str / to_string / ToSymbol::to_symbol are mutually inverse on symbolic ids',
-                   'bincode + serde derive for FfiValue and the hand-written serde impls for TypeNodeId / ExprNodeId are NOT encoded (byte buffers, visitors, global interner): outside the claim',
+                   'bincode + serde derive for FfiValue and the hand-written serde impls for TypeNodeId / ExprNodeId are NOT encoded (byte buffers, visitors, global interner): outside the claim; in the bridge scenarios bincode is a stub: serialize = one opaque record, serialize_into APPENDS a record to its writer, deserialize reads the FIRST record and ignores trailing bytes (bincode 1.x)',
+                   'bridge scenarios: the plugin is the entry point mimium-plugin-macros generates (decode with deserialize_macro_args, call, encode with serialize_value) with the method "return the tuple of all arguments"; TypeNodeId arguments are opaque',
                    'opaque payloads of the five non-transferable constructors are not inspected']
     return rep.finish(cov, assumptions)
